@@ -291,8 +291,11 @@ func rdGen(r *hx.Rand, i int) interface{} {
 }
 
 // newProxy wires HTTPProxy the way main.go does: route.GetTable() is replaced by the given table getter.
-func newProxy(get func() route.Table, cache *route.GlobCache, globDisabled bool) *proxy.HTTPProxy {
+func newProxy(get func() route.Table, cache *route.GlobCache, globDisabled bool, picker ...string) *proxy.HTTPProxy {
 	pick := route.Picker["rr"]
+	if len(picker) == 1 {
+		pick = route.Picker[picker[0]]
+	}
 	match := route.Matcher["prefix"]
 	return &proxy.HTTPProxy{
 		Lookup: func(r *http.Request) *route.Target {
